@@ -40,7 +40,13 @@ CONSTANTS
                 \*   which order the caller's substance -> feed-key mapping lists them, see FeedOrderOf)
     PhaseMaps,  \* set of maps Species -> Nat: phase index of the object standing for each substance
     ReKVals,    \* rate-constant values used when a constant is re-assigned after an evaluation
-    MaxHist     \* maximal number of re-assignments
+    MaxHist,    \* maximal number of re-assignments
+    \* how the calls are made (the expected results do not depend on any of these):
+    NameMap,    \* Species -> the actual substance key handed to the code ("A" -> "H+", ...)
+    PForms,     \* forms in which a reaction carries its constant: "plain" number, "ma" MassAction([k]),
+                \*   "str" the key 'k<i>' looked up in the variables
+    Containers, \* containers for the array form: "list", "tuple", "ndarray"
+    OvKVals     \* sequence of constants used when per-reaction rate expressions are passed explicitly
 
 VARIABLES
     rsys,       \* the system: sequence of reactions
@@ -92,8 +98,18 @@ RatesCSTR(sys, cc, fd) ==
 NoFeed == [on |-> FALSE, order |-> <<>>, usermap |-> FALSE]
 RatesFed(sys, cc, fd) == IF fd.on THEN RatesCSTR(sys, cc, fd) ELSE Rates(sys, cc)
 
-(* net stoichiometric matrix: N[i][s], rows = reactions *)
+(* stoichiometric matrices, rows = reactions (N = net) *)
 N(sys) == [i \in 1..Len(sys) |-> Net(sys[i])]
+ActiveReacM(sys) == [i \in 1..Len(sys) |-> [s \in Species |-> Co(sys[i].reac, s)]]
+AllReacM(sys) == [i \in 1..Len(sys) |-> [s \in Species |-> Co(sys[i].reac, s) + Co(sys[i].ireac, s)]]
+ActiveProdM(sys) == [i \in 1..Len(sys) |-> [s \in Species |-> Co(sys[i].prod, s)]]
+AllProdM(sys) == [i \in 1..Len(sys) |-> [s \in Species |-> Co(sys[i].prod, s) + Co(sys[i].iprod, s)]]
+\* coefficient matrix of the ACTIVE parts only, rows = substances (util.stoich.get_coeff_mtx)
+CoeffMtx(sys) == [s \in Species |-> [i \in 1..Len(sys) |-> Co(sys[i].prod, s) - Co(sys[i].reac, s)]]
+\* explicitly passed per-reaction rate expressions replace the constants: "all" reactions, or the
+\* odd-numbered ones only ("mixed": the others keep their own constant)
+OverrideSys(sys, pattern) ==
+    [i \in 1..Len(sys) |-> [sys[i] EXCEPT !.kv = IF pattern = "all" \/ i % 2 = 1 THEN OvKVals[i] ELSE @]]
 
 ------------------------------------------------------------------------------
 (* polynomials: sets of monomials <<coef, p, e>> *)
@@ -263,6 +279,14 @@ PointSeparates == Done =>
     \A s \in Species : \A m1, m2 \in RatePoly(rsys, s) :
         m1 # m2 => QAbs(MonoValue(m1, VEnv(c, feed), KEnv(rsys))) # QAbs(MonoValue(m2, VEnv(c, feed), KEnv(rsys)))
 
+\* the matrices decompose the net matrix; inactive parts count in N but not in the active ones
+StoichDecomposes == Done =>
+    \A i \in DOMAIN rsys : \A s \in Species :
+        /\ N(rsys)[i][s] = AllProdM(rsys)[i][s] - AllReacM(rsys)[i][s]
+        /\ AllReacM(rsys)[i][s] >= ActiveReacM(rsys)[i][s] /\ AllProdM(rsys)[i][s] >= ActiveProdM(rsys)[i][s]
+        /\ CoeffMtx(rsys)[s][i] = ActiveProdM(rsys)[i][s] - ActiveReacM(rsys)[i][s]
+        /\ Order(rsys[i]) = SumOver(Species, LAMBDA x : ActiveReacM(rsys)[i][x])
+
 PolysNormal == Done => \A s \in Species : IsPoly(RatePolyFed(rsys, s, Fed(feed, s)))
 
 TypeOK == /\ phase \in {"build", "ready", "built"}
@@ -294,13 +318,36 @@ Class == "n" \o ToString(Len(rsys))
 FeedOut == IF feed.on THEN [on |-> TRUE, F |-> feed.F, cf |-> BySubst(feed.cf),
                              order |-> feed.order, usermap |-> feed.usermap]
            ELSE [on |-> FALSE, F |-> QZero, cf |-> <<>>, order |-> <<>>, usermap |-> FALSE]
+\* a caller may ask for any sub-permutation of the substances
+KeySel(kind) == IF kind = "rev" \/ Len(subst) < 2 THEN RevSeq(subst) ELSE RevSeq(Tail(subst))
+ByKeys(f, keys) == [i \in 1..Len(keys) |-> f[keys[i]]]
+SelOut(kind) == [ keys |-> KeySel(kind),
+                  contrib |-> [i \in 1..Len(rsys) |-> ByKeys(Contribution(rsys[i], c), KeySel(kind))],
+                  rates |-> ByKeys(Rates(rsys, c), KeySel(kind)),
+                  net |-> [i \in 1..Len(rsys) |-> ByKeys(Net(rsys[i]), KeySel(kind))] ]
+OvOut(pattern) == LET sys == OverrideSys(rsys, pattern)
+                  IN  [ contrib |-> [i \in 1..Len(sys) |-> BySubst(Contribution(sys[i], c))],
+                        fed |-> BySubst(RatesFed(sys, c, feed)) ]
 CaseIn == [ subst |-> subst,
+            names |-> BySubst(NameMap),
+            pforms |-> SetToSeq(PForms),
+            containers |-> SetToSeq(Containers),
+            ov |-> SubSeq(OvKVals, 1, Len(rsys)),
             rxns |-> [i \in 1..Len(rsys) |-> RxnOut(rsys[i])],
             c |-> BySubst(c),
             sphase |-> BySubst(sphase),
             hist |-> hist,
             feed |-> FeedOut ]
 CaseExp == [ net |-> [i \in 1..Len(rsys) |-> BySubst(Net(rsys[i]))],
+             areac |-> [i \in 1..Len(rsys) |-> BySubst(ActiveReacM(rsys)[i])],
+             allreac |-> [i \in 1..Len(rsys) |-> BySubst(AllReacM(rsys)[i])],
+             aprod |-> [i \in 1..Len(rsys) |-> BySubst(ActiveProdM(rsys)[i])],
+             allprod |-> [i \in 1..Len(rsys) |-> BySubst(AllProdM(rsys)[i])],
+             coeff |-> BySubst(CoeffMtx(rsys)),
+             rkeys |-> [i \in 1..Len(rsys) |-> SetToSeq(Keys(rsys[i]))],
+             selrev |-> SelOut("rev"), selsub |-> SelOut("sub"),
+             ovall |-> OvOut("all"), ovmixed |-> OvOut("mixed"),
+             frame |-> TRUE,   \* evaluating is not an action: the caller's variables are left as they were
              order |-> [i \in 1..Len(rsys) |-> Order(rsys[i])],
              rvals |-> [i \in 1..Len(rsys) |-> RateOf(rsys[i], c)],
              contrib |-> [i \in 1..Len(rsys) |-> BySubst(Contribution(rsys[i], c))],
